@@ -192,6 +192,66 @@ def _trace_module_source_file(module: str) -> str | None:
             sys.path.pop()
 
 
+def _constant_strings(node: ast.AST) -> Sequence[str] | None:
+    """Strings in a list/tuple display of string constants (or a sum of such), else None."""
+    if isinstance(node, (ast.List, ast.Tuple)):
+        if all(isinstance(elt, ast.Constant) and isinstance(elt.value, str) for elt in node.elts):
+            return [elt.value for elt in node.elts]
+        return None
+    if isinstance(node, ast.BinOp) and isinstance(node.op, ast.Add):
+        left = _constant_strings(node.left)
+        right = _constant_strings(node.right)
+        if left is not None and right is not None:
+            return [*left, *right]
+    return None
+
+
+def _infer_dunder_all(root: ast.Module) -> Set[str] | None:
+    """Names that __all__ of a module is likely to contain at runtime.
+
+    Returns None if the module does not assign a list or tuple of strings to __all__.
+    """
+    all_filter: Set[str] = set()
+    found = False
+    for node in root.body:
+        if isinstance(node, ast.Assign):
+            is_all = any(isinstance(t, ast.Name) and t.id == "__all__" for t in node.targets)
+        elif isinstance(node, (ast.AnnAssign, ast.AugAssign)):
+            is_all = isinstance(node.target, ast.Name) and node.target.id == "__all__"
+            if isinstance(node, ast.AugAssign) and not isinstance(node.op, ast.Add):
+                is_all = False
+        else:
+            is_all = False
+        if not is_all or node.value is None:
+            continue
+        names = _constant_strings(node.value)
+        if names is None:
+            continue
+        if not isinstance(node, ast.AugAssign):
+            found = True
+        all_filter.update(names)
+
+    if not found:
+        return None
+
+    for node in ast.walk(root):
+        if (
+            isinstance(node, ast.Call)
+            and isinstance(node.func, ast.Attribute)
+            and isinstance(node.func.value, ast.Name)
+            and node.func.value.id == "__all__"
+            and len(node.args) == 1
+        ):
+            if node.func.attr == "extend":
+                all_filter.update(_constant_strings(node.args[0]) or ())
+            elif node.func.attr == "append":
+                arg = node.args[0]
+                if isinstance(arg, ast.Constant) and isinstance(arg.value, str):
+                    all_filter.add(arg.value)
+
+    return all_filter
+
+
 @functools.lru_cache(maxsize=100_000)
 def trace_origin(name: str, source: str, *, __all__: bool = False) -> _TraceResult | None:
     """Trace the origin of a name in python source code.
@@ -226,33 +286,9 @@ def trace_origin(name: str, source: str, *, __all__: bool = False) -> _TraceResu
     # Without this, we could for example think that `os` was accessible in `pathlib`,
     # and end up putting `from pathlib import os` in generated code.
     if __all__:
-        all_template = ast.Assign(
-            targets=[ast.Name(id="__all__")], value=ast.List(elts={ast.Constant(value=str)})
-        )
-        all_extend_template = ast.Call(
-            func=ast.Attribute(value=ast.Name(id="__all__"), attr="extend"),
-            args=[(
-                ast.Tuple(elts={ast.Constant(value=str)}),
-                ast.List(elts={ast.Constant(value=str)}),
-        )],)
-        all_append_template = ast.Call(
-            func=ast.Attribute(value=ast.Name(id="__all__"), attr="append"), args=[str]
-        )
-        all_filter: Set[str] = set()
-        all_nodes = tuple(core.filter_nodes(root.body, all_template))
-
-        if all_nodes:
-            for node in all_nodes:
-                all_filter.update(constant.value for constant in node.value.elts)
-
-            for node in core.walk(root, all_extend_template):
-                all_filter.update(constant.value for constant in node.args[0].elts)
-
-            for node in core.walk(root, all_append_template):
-                all_filter.add(node.args[0])
-
-            if name not in all_filter:
-                return None
+        all_filter = _infer_dunder_all(root)
+        if all_filter is not None and name not in all_filter:
+            return None
 
     for node in sorted(nodes, key=lambda n: (n.lineno, n.col_offset), reverse=True):
         if isinstance(node, (ast.Import, ast.ImportFrom)):
